@@ -54,6 +54,13 @@ FIX = {
     ("        wcount = int(math.ceil(math.log2(mlen)))\r\n        ret += f'reg [{wcount-1}:0] count = 0;\\n'\r\n",
      "        wcount = max(1, int(math.ceil(math.log2(mlen))))  # a one character message still needs a 1 bit counter\r\n        ret += f'reg [{wcount-1}:0] count = 0;\\n'\r\n"),
  ]),
+ # variables of a transpiled block get the same reserved-word renaming as ports
+ 'transpiler-keyword-variable': ('py4hw/transpilation/python2verilog_transpilation.py', [
+    ("        self._fields = tuple(['name', 'type'])\r\n\r\n    def toVerilog(self):\r\n        return self.name\r\n",
+     "        self._fields = tuple(['name', 'type'])\r\n\r\n    def toVerilog(self):\r\n        from py4hw.rtl_generation import getValidVerilogName\r\n        return getValidVerilogName(self.name)\r\n"),
+    ("        return '{} {};\\n'.format(self.type, self.name )\r\n",
+     "        from py4hw.rtl_generation import getValidVerilogName\r\n        return '{} {};\\n'.format(self.type, getValidVerilogName(self.name))\r\n"),
+ ]),
  'empty-concatenation': (RTL, [
     ("def InlineConcatenateMSBF(obj:Logic):\r\n    str = '' # \"# MSBF \\n\"\r\n    w = len(obj.ins)\r\n",
      "def InlineConcatenateMSBF(obj:Logic):\r\n    str = '' # \"# MSBF \\n\"\r\n    w = len(obj.ins)\r\n"
